@@ -170,9 +170,18 @@ fn gen_file(t: &mut Tape) -> (String, Vec<Container>) {
     let members = |t: &mut Tape, text: &mut String, line: &mut i32, id: &mut usize, max: usize| -> Vec<u16> {
         let k = t.below(max + 1);
         let mut sizes = Vec::new();
+        // every fourth container draws from a palette of sizes that sit on the slot boundary
+        // (8 + 248, 96 + 160, 120 + 136, 128 + 128): complements that fill a slot exactly
+        let palette: Vec<(String, u16)> = if t.chance(64) {
+            table.iter().filter(|(n, _)| ["bool", "uint8", "bytes1", "uint248", "int248", "bytes31", "uint256", "uint128", "uint120", "uint136", "address", "uint96", "uint88", "uint104", "bytes32"].contains(&n.as_str())).cloned().collect()
+        } else {
+            Vec::new()
+        };
         for _ in 0..k {
             // bias to small types so that packing matters
-            let (ty, bits) = if t.chance(200) {
+            let (ty, bits) = if !palette.is_empty() {
+                t.pick(&palette).clone()
+            } else if t.chance(200) {
                 t.pick(&table[16..]).clone()
             } else {
                 t.pick(&table[..16]).clone()
@@ -200,7 +209,18 @@ fn gen_file(t: &mut Tape) -> (String, Vec<Container>) {
             _ => {
                 let l = line;
                 let kw = *t.pick(&["contract", "contract", "abstract contract", "library", "interface"]);
-                text.push_str(&format!("{kw} C{c} {{\n"));
+                // a base contract, defined earlier in the file or not at all: the verdict concerns the
+                // contract's own members
+                let base = if kw.ends_with("contract") && c > 0 && t.chance(90) {
+                    if t.chance(180) {
+                        format!(" is C{}", t.below(c))
+                    } else {
+                        " is Base , Ownable ( 1 )".to_string()
+                    }
+                } else {
+                    String::new()
+                };
+                text.push_str(&format!("{kw} C{c}{base} {{\n"));
                 line += 1;
                 let mut sizes = members(t, &mut text, &mut line, &mut id, 4);
                 // nested struct(s)
